@@ -16,7 +16,6 @@ import (
 	"testing"
 	"time"
 
-	"github.com/cbeuw/Cloak/internal/client"
 	vk "github.com/cbeuw/Cloak/internal/verifkit"
 )
 
@@ -150,7 +149,12 @@ func TestVerif_C10(t *testing.T) {
 				vkind, vdet = "config", err.Error()
 				return
 			}
-			sesh := client.MakeSession(remote, auth, g.lis)
+			defer g.stopClients()
+			sesh := g.makeSession(remote, auth, "direct")
+			if sesh == nil {
+				vkind, vdet = "no-session", "a correctly configured direct-mode client cannot establish its session"
+				return
+			}
 			nst := 1
 			if c.NumConn != 0 {
 				nst = 1 + rng.IntN(5)
